@@ -52,6 +52,38 @@ def runRows : List (Op Int) → Nat × List (List Int) → Option (Nat × List (
     | some st' => runRows ops st'
     | none => none
 
+/-- schema JSON: a list of `[name, "leaf"]` / `[name, [sub-schema…]]`; leaf `i` (in order) gets the one-cell column `[i]` -/
+partial def parseFields (v : Json) (next : Nat) : Except String (List (C19.Name × Tab Int) × Nat) := do
+  let arr ← v.getArr?
+  let mut out : List (C19.Name × Tab Int) := []
+  let mut n := next
+  for f in arr.toList do
+    let pair ← f.getArr?
+    let nm ← (pair[0]!).getStr?
+    let name : C19.Name := nm.toList.map (·.toNat)
+    match (pair[1]!).getStr? with
+    | .ok _ =>
+      out := out ++ [(name, Tab.col [(n : Int)])]
+      n := n + 1
+    | .error _ =>
+      let (sub, n') ← parseFields (pair[1]!) n
+      out := out ++ [(name, Tab.tab sub)]
+      n := n'
+  pure (out, n)
+
+def keyStr (k : C19.Name) : String := String.ofList (k.map Char.ofNat)
+
+mutual
+partial def tabEq : Tab Int → Tab Int → Bool
+  | .col a, .col b => a == b
+  | .tab a, .tab b => fieldsEq a b
+  | _, _ => false
+partial def fieldsEq : List (C19.Name × Tab Int) → List (C19.Name × Tab Int) → Bool
+  | [], [] => true
+  | (n, t) :: r, (n', t') :: r' => n == n' && tabEq t t' && fieldsEq r r'
+  | _, _ => false
+end
+
 def handle (op : String) (j : Json) : Except String Json := do
   match op with
   | "program" =>
@@ -75,6 +107,15 @@ def handle (op : String) (j : Json) : Except String Json := do
     let rect := rows.all (fun r => r.length == width)
     let s := if rect then Json.mkObj [("rows", intListList rows), ("width", nat width)] else errJ
     pure (reply m (some s))
+  | "dict" =>
+    let (fs, _) ← parseFields (← j.getObjVal? "schema") 0
+    let d := toDictFields fs
+    let back := match fromDictFields (schemaFields fs) d with
+      | some fs' => fieldsEq fs fs'
+      | none => false
+    let m := Json.mkObj [("keys", Json.arr (d.map (fun kv => str (keyStr kv.1))).toArray),
+      ("leaves", intList (d.flatMap (·.2))), ("roundtrip", Json.bool back)]
+    pure (reply m none)
   | _ => throw s!"C19: unknown op {op}"
 
 end Drv.C19
